@@ -68,6 +68,7 @@ def c16(run):
         return {"bt0": i.get("bt") == 0, "empty_store": i.get("tail") == 0, "sfh": i.get("sfh", 0) > 0,
                 "blocks_faster_than_blockTime": faster, "new_head_beyond_local_head_plus_1": i.get("tail", 0) != 0 and nh > i.get("shead", 0) + 1}
     judge(run, cases, "TestTail", "SyncerTailTrace", ["C16_"], shards=8, pkg="synch", sig_fn=sig)
+    apalache_tail(run)
     if unclassified and not run.violations:
         raise vlib.Inconclusive("SyncerTail.tla predicts %d violating rows that the real code did not reproduce" % len(unclassified))
 
@@ -232,3 +233,35 @@ def c07(run):
 @register("C03")
 def c03(run):
     syncer_family(run, ["C03_"])
+
+
+def apalache_tail(run):
+    """SyncerTailInt.tla: the integer arithmetic of the tail estimate over the full uint64/int64 ranges (Apalache, one step).
+    The repaired arithmetic must satisfy InRange and NoDivZero; the pre-repair arithmetic (NextOld) must be refuted — a
+    self-test that the checker really explores the ranges."""
+    import subprocess, shutil, re
+    wd = vlib.workdir(run.pid, "apalache", wipe=True)
+    shutil.copy(os.path.join(vlib.SPEC, "SyncerTailInt.tla"), wd)
+    out = {}
+    import concurrent.futures
+
+    def one(job):
+        name, nxt, inv = job
+        try:
+            r = subprocess.run(["apalache-mc", "check", "--init=Init", "--next=" + nxt, "--inv=" + inv, "--length=1",
+                                "--out-dir=" + os.path.join(wd, "out_" + name), "SyncerTailInt.tla"],
+                               cwd=wd, capture_output=True, text=True, timeout=300)
+            txt = r.stdout + r.stderr
+            return name, ("NoError" if "The outcome is: NoError" in txt else ("Error" if "The outcome is: Error" in txt else "failed"))
+        except Exception as e:           # tool problem: recorded, never a verdict
+            return name, "failed: %s" % type(e).__name__
+    jobs = [("fixed_InRange", "Next", "InRange"), ("fixed_NoDivZero", "Next", "NoDivZero"),
+            ("old_InRange", "NextOld", "InRange"), ("old_NoDivZero", "NextOld", "NoDivZero")]
+    with concurrent.futures.ThreadPoolExecutor(max_workers=4) as ex:
+        out = dict(ex.map(one, jobs))
+    run.cov["apalache_full_range"] = out
+    if out.get("fixed_InRange") == "Error" or out.get("fixed_NoDivZero") == "Error":
+        raise vlib.Inconclusive("Apalache refutes the tail arithmetic of SyncerTailInt.tla over the 64-bit ranges (see %s): the "
+                                "counterexample has to be turned into a row of SyncerTail.tla and replayed" % wd)
+    if out.get("old_InRange") == "NoError" or out.get("old_NoDivZero") == "NoError":
+        raise vlib.Inconclusive("Apalache self-test failed: the unguarded arithmetic was not refuted")
